@@ -96,7 +96,9 @@ pub fn run(seed: u64, count: usize, outdir: &str) -> std::io::Result<i32> {
             g = GenShape { ctx, root, kind: "ambiguous-face" };
         }
         let s = 1.0 + r.unit() as f32 * 0.5;
-        let mat = if corpus { Matrix4::identity() } else { match r.below(3) { 0 => Matrix4::identity(), 1 => Matrix4::new_scaling(s),
+        let mat = if corpus { Matrix4::identity() } else { match r.below(4) { 0 => Matrix4::identity(), 1 => Matrix4::new_scaling(s),
+            // a perspective camera (as the CLI builds): the bottom row has a z term
+            3 => { let mut m = Matrix4::new_scaling(1.3); m[(3, 2)] = *r.pick(&[0.3f32, 0.5, -0.25]); m }
             _ => Matrix4::new_scaling(1.8) * Matrix4::from_euler_angles(r.unit() as f32 * 3.0, r.unit() as f32 * 3.0, r.unit() as f32 * 3.0) } };
         let threads = *r.pick(&[0usize, 0, 1, 2, 4, 9]);
         let line0 = format!("kind={} nodes={} depth={depth} threads={threads} mat={:?}", g.kind, g.ctx.len(), mat.as_slice());
@@ -105,16 +107,31 @@ pub fn run(seed: u64, count: usize, outdir: &str) -> std::io::Result<i32> {
         *hist.entry(match threads { 0 => "no-pool", 1 => "global-pool", _ => "custom-pool" }.into()).or_default() += 1;
         let mut bad: Vec<String> = vec![];
         // sampled volume of the negative region (model coordinates: world region (-1,1)^3 mapped by world_to_model)
-        let n = 40usize;
+        let n = if depth >= 5 { 128usize } else { 40 };
         let m64 = mat.cast::<f64>();
         let det = m64.fixed_view::<3, 3>(0, 0).determinant().abs();
+        let det4 = m64.determinant().abs();
+        let projective = m64[(3, 0)] != 0.0 || m64[(3, 1)] != 0.0 || m64[(3, 2)] != 0.0 || m64[(3, 3)] != 1.0;
         let mut inside = 0usize;
-        for i in 0..n { for j in 0..n { for k in 0..n {
-            let w = nalgebra::Point3::new(-1.0 + (2 * i + 1) as f64 / n as f64, -1.0 + (2 * j + 1) as f64 / n as f64, -1.0 + (2 * k + 1) as f64 / n as f64);
-            let p = m64.transform_point(&w);
-            if eval_f64(&g, [p.x, p.y, p.z]) < 0.0 { inside += 1; }
-        } } }
-        let vol_sampled = inside as f64 * (2.0 / n as f64).powi(3) * det;
+        let mut wsum = 0.0f64;
+        {
+            // the interpreter's many-point evaluator on the midpoints of an n^3 grid (model position = world_to_model * world)
+            let sshape = Shape::<VmFunction>::new(&g.ctx, g.root).unwrap();
+            let tape = sshape.float_slice_tape(Default::default());
+            let mut ev = Shape::<VmFunction>::new_float_slice_eval();
+            let coord = |i: usize| -1.0 + (2 * i + 1) as f64 / n as f64;
+            for i in 0..n {
+                let mut xs = Vec::with_capacity(n * n); let mut ys = Vec::with_capacity(n * n); let mut zs = Vec::with_capacity(n * n);
+                for j in 0..n { for k in 0..n { xs.push(coord(i) as f32); ys.push(coord(j) as f32); zs.push(coord(k) as f32); } }
+                let out = ev.eval_with_transform(&tape, &xs, &ys, &zs, &mat).unwrap();
+                for (idx, v) in out.iter().enumerate() { if *v < 0.0 { inside += 1;
+                    // the Jacobian determinant of p -> (A p + t) / (c.p + d) is det(M) / w^4
+                    let (wx, wy, wz) = (xs[idx] as f64, ys[idx] as f64, zs[idx] as f64);
+                    let wv = m64[(3, 0)] * wx + m64[(3, 1)] * wy + m64[(3, 2)] * wz + m64[(3, 3)];
+                    wsum += det4 / wv.powi(4).abs(); } }
+            }
+        }
+        let vol_sampled = if projective { wsum * (2.0 / n as f64).powi(3) } else { inside as f64 * (2.0 / n as f64).powi(3) * det };
         let cell = 2.0 / (1u32 << depth) as f64 * det.cbrt();
         let mut il = String::new();
         let mut wire = String::new();
@@ -149,7 +166,10 @@ pub fn run(seed: u64, count: usize, outdir: &str) -> std::io::Result<i32> {
             if rep.problems.is_empty() {
                 // enclosed volume vs sampled volume: within the sampling resolution of the octree
                 // features smaller than a cell may be missed or merged: cell^3 per such feature; surface placement: area * cell
-                let tol = 0.6 * rep.area * cell + 2.0 * cell.powi(3) + 0.02 * det + 1.5 * (2.0 / n as f64) * rep.area.max(1.0);
+                // coarse octrees lose whole features thinner than a cell (not bounded by the mesh's own area): loose there,
+                // tight where the shape is resolved (depth >= 5: cells of 1/16 or less)
+                let tol = if depth >= 5 { 0.15 * rep.area * cell + 2.0 * cell.powi(3) + 0.004 * det + 0.5 * (2.0 / n as f64) * det.cbrt() * rep.area }
+                          else { 0.6 * rep.area * cell + 2.0 * cell.powi(3) + 0.02 * det + 1.5 * (2.0 / n as f64) * rep.area.max(1.0) };
                 // (leaf vertices are not clamped to their cells, so a feature of about one cell can come out inverted:
                 //  that is below the sampling resolution; an inward-wound mesh shows as a negative volume beyond it)
                 if rep.vol < -tol { bad.push(format!("kind=negative-volume backend={name} signed volume {:.5} (tolerance {:.4}): the mesh is wound inward", rep.vol, tol)); }
